@@ -137,6 +137,8 @@ class Kernel(object):
         self.umask = 0o022
         self.record_reads = True
         self.probe = {}
+        self.in_op = False       # between begin() and done()/fail(): the bracketed real call
+        self.bypass = []         # audit events seen outside a bracket while a process runs
 
     # ---- configuration per run -----------------------------------------
     def reset(self, root, mounts=('/',), dirsalt=0, faults=(), umask=0o022):
@@ -156,6 +158,8 @@ class Kernel(object):
         self.active = False
         self.umask = umask
         self.probe = {}
+        self.in_op = False
+        self.bypass = []
 
     # ---- path translation ----------------------------------------------
     def r(self, vpath):
@@ -348,6 +352,7 @@ class Kernel(object):
                 raise exc
         for m in self.monitors:
             m(ev, 'pre')
+        self.in_op = True
         return ev
 
     def match_fault(self, p, ev, mut):
@@ -442,11 +447,13 @@ class Kernel(object):
         raise HarnessError('unknown condition %r' % (what,))
 
     def done(self, ev, result=None):
+        self.in_op = False
         ev[6] = result
         for m in self.monitors:
             m(ev, 'post')
 
     def fail(self, ev, e):
+        self.in_op = False
         self.fixerr(e)
         ev[6] = 'E:' + E.errorcode.get(e.errno, str(e.errno)) if isinstance(e, OSError) and e.errno else 'E:' + type(e).__name__
         for m in self.monitors:
@@ -1140,6 +1147,23 @@ if hasattr(O, 'copy_file_range'):
 
 _installed = False
 
+AUDITED = frozenset([
+    'open', 'os.chmod', 'os.chown', 'os.link', 'os.listdir', 'os.mkdir', 'os.remove', 'os.rename', 'os.rmdir',
+    'os.scandir', 'os.symlink', 'os.truncate', 'os.utime', 'os.setxattr', 'os.removexattr', 'os.listxattr',
+    'os.getxattr', 'os.chdir', 'os.mkfifo', 'os.mknod', 'os.chflags', 'os.lchflags', 'os.exec', 'os.fork',
+    'os.posix_spawn', 'os.system', 'subprocess.Popen', 'socket.connect', 'socket.bind',
+])
+
+
+def _audit(event, args):
+    # seam completeness tripwire (DESIGN 5.2a): while a simulated process is
+    # running, every C-level file-system call must happen inside an op
+    # bracket of the virtual kernel
+    if K.active and not K.in_op and event in AUDITED:
+        if event == 'open' and args and isinstance(args[0], int):
+            return          # python file object wrapped around a descriptor we opened in a bracket
+        K.bypass.append((event, repr(args)[:200]))
+
 
 def install():
     """replace the entry points (idempotent).  Transparent while K.active is
@@ -1160,6 +1184,7 @@ def install():
         setattr(os, name, w)
         if hasattr(posixpath.os, name):
             pass
+    sys.addaudithook(_audit)
     posixpath.ismount = w_ismount
     builtins.open = w_builtin_open
     io.open = w_builtin_open
